@@ -2,6 +2,7 @@
   `shm-driver --pure`: evaluates the model definitions of the library's pure helpers on the lines of the unit-level correspondence
   (see harness/purefn.cpp).  One answer line per input line, in the format the harness prints.
 -/
+import Shm.Model.MutexLife
 import Shm.Pure.ByteStr
 import Shm.Pure.Config
 import Shm.Model.Wrap
@@ -42,6 +43,7 @@ def pureLine (ws : List String) : String :=
     | some pw, some salt => if salt.length < 8 || pw.isEmpty then "0" else s!"1 {toHex (Shm.Crypto.pbeDeriveKey pw salt)}"
     | _, _ => "?"
   | ["conf", a] => (hx a).elim "?" fun b => Config.render (Config.load b)
+  | ["mxseq", s] => Shm.MutexLife.mxLine s
   | _ => "?"
 
 end Shm.Pure
